@@ -15,7 +15,7 @@ go build ./... || { echo "$ID/$K: does not compile"; exit 1; }
 out=$(go test -vet=off -count=1 ./... 2>&1); echo "$out" | grep -q "^FAIL\|^--- FAIL\|^panic" && { echo "$ID/$K: existing suite FAILS with patch"; exit 1; }
 cp $S/demo_test.go $DIR/zz_seed_demo_test.go
 if sh -c "$RUN" >/tmp/wt/confirm-$ID-$K.with.log 2>&1; then echo "$ID/$K: demo PASSES with patch (not a demonstration)"; exit 1; fi
-git checkout -q -- . ; cp $S/demo_test.go $DIR/zz_seed_demo_test.go
+git checkout -q -- . ; git clean -fdq ; cp $S/demo_test.go $DIR/zz_seed_demo_test.go
 if ! sh -c "$RUN" >/tmp/wt/confirm-$ID-$K.without.log 2>&1; then echo "$ID/$K: demo FAILS without patch"; tail -5 /tmp/wt/confirm-$ID-$K.without.log; exit 1; fi
 rm -f /tmp/wt/confirm-$ID-$K.with.log /tmp/wt/confirm-$ID-$K.without.log
 mkdir -p $V/seeded/$ID-$TAG$K && cp $S/patch.diff $S/demo_test.go $V/seeded/$ID-$TAG$K/ && python3 - <<PY
